@@ -10,7 +10,7 @@ COMMON_T = [
 
 PROPS = {
     "C01": {
-        "units": ["ident", "idna", "x509", "storage", "issue", "texts"],
+        "units": ["ident", "idna", "x509", "storage", "issue", "texts", "cfgwire", "evloop"],
         "design_ref": "DESIGN.md section 5 C01",
         "technique": "Verus function contracts: normalisation label by label, newOrder payload element by element, CSR through a ghost view of the OpenSSL request builder",
         "text": "Deductive proof that configured DNS identifiers are stored as lower-case A-labels label by label (wildcard label kept) and IP "
@@ -25,7 +25,7 @@ PROPS = {
         ],
     },
     "C02": {
-        "units": ["storage", "http", "issue"],
+        "units": ["storage", "http", "issue", "cfgwire", "evloop"],
         "design_ref": "DESIGN.md section 5 C02",
         "technique": "Verus function contracts over a ghost file-system map (POSIX open/write semantics in the trusted shim)",
         "text": "Deductive proof that write_file leaves exactly the given bytes in the target file for every previous content "
@@ -56,7 +56,7 @@ PROPS = {
         ],
     },
     "C11": {
-        "units": ["account", "acctproto", "acctstore", "texts", "storage"],
+        "units": ["account", "acctproto", "acctstore", "texts", "storage", "cfgwire"],
         "design_ref": "DESIGN.md section 5 C11",
         "technique": "Verus function contracts over a ghost record of what the CA holds; signing-key preconditions on the account requests",
         "text": "Deductive proof that synchronize registers only when no account URL is stored or the external binding changed, otherwise sends at "
@@ -93,7 +93,7 @@ PROPS = {
         ],
     },
     "C14": {
-        "units": ["config", "evloop", "texts"],
+        "units": ["config", "evloop", "texts", "cfgwire"],
         "design_ref": "DESIGN.md section 5 C14",
         "technique": "Verus function contracts: three-level getters against a 'most specific wins' spec function; include loop with ghost set of opened files",
         "text": "Deductive proof that renew_delay, random_early_renew, file_name_format and the storage directory resolve to the most "
@@ -152,7 +152,7 @@ PROPS = {
         ],
     },
     "C19": {
-        "units": ["duration", "ratelimit", "config"],
+        "units": ["duration", "ratelimit", "config", "cfgwire"],
         "design_ref": "DESIGN.md section 5 C19",
         "technique": "Verus safety obligations (overflow, division, unwrap, termination) + value contracts on the period parser",
         "text": "Deductive proof that the period parser, the limiter constructor and its sleep computation have no failing "
@@ -180,7 +180,7 @@ PROPS = {
         ],
     },
     "C04": {
-        "units": ["jws", "http", "keys", "issue", "acctproto", "texts", "account"],
+        "units": ["jws", "http", "keys", "issue", "acctproto", "texts", "account", "cfgwire"],
         "design_ref": "DESIGN.md section 5 C04",
         "technique": "Verus function contracts: JWS structure as a spec predicate over uninterpreted base64url/serialisation/signature relations; nonce and URL binding as preconditions of the transmission",
         "text": "Deductive proof that encode_jwk/encode_kid/encode_kid_mac produce the flattened JWS of RFC 7515 with exactly the header "
@@ -195,7 +195,7 @@ PROPS = {
         ],
     },
     "C05": {
-        "units": ["chalproof", "schedule", "ident", "issue", "revdns", "keys", "texts", "hooks"],
+        "units": ["chalproof", "schedule", "ident", "issue", "revdns", "keys", "texts", "hooks", "cfgwire", "evloop"],
         "design_ref": "DESIGN.md section 5 C05",
         "technique": "Verus function contracts: proof strings against RFC 8555 section 8 / RFC 8737 texts pinned in the contract; entry lookup against a spec function of (identifier, wildcard flag)",
         "text": "Deductive proof that the key authorization is token.base64url(SHA-256(thumbprint input)), that http-01 / dns-01 / tls-alpn-01 "
@@ -210,7 +210,7 @@ PROPS = {
         ],
     },
     "C06": {
-        "units": ["schedule", "x509time", "renew", "storage", "config"],
+        "units": ["schedule", "x509time", "renew", "storage", "config", "evloop"],
         "design_ref": "DESIGN.md section 5 C06",
         "technique": "Verus function contracts: saturating-time arithmetic against spec functions; request shim requires the scheduled wait",
         "text": "Deductive proof that schedule_renewal answers 'now' when a file is missing or an identifier is not covered, and otherwise "
@@ -251,7 +251,7 @@ PROPS = {
         ],
     },
     "C18": {
-        "units": ["http", "config", "evloop"],
+        "units": ["http", "config", "evloop", "acmedmain"],
         "design_ref": "DESIGN.md section 5 C18",
         "technique": "Verus call-site preconditions on the transmission shim (client built from exactly the configured roots, no insecure switch)",
         "text": "Deductive proof that every request of http.rs is sent through a client whose added roots are exactly the "
@@ -260,7 +260,7 @@ PROPS = {
         "assumptions": [
             "T: reqwest/native-tls validate the chain and host name against system roots plus the added roots (the validation itself is not modelled)",
             "T: the ClientBuilder/Client/RequestBuilder ghost views in prelude/reqwest.rs (roots, insecure) reflect the library",
-            "X: how --root-cert reaches MainEventLoop::new (main.rs argument parsing); from there on every endpoint object is built with that list (unit evloop)",
+            "T: clap as modelled in prelude/acmedmain_shims.rs (get_many yields every occurrence of an option only for an argument declared with ArgAction::Append); main.rs::inner_main is verified: MainEventLoop::new gets every --root-cert of the command line, in order; from there on every endpoint object is built with that list (unit evloop)",
         ],
     },
     "C09": {
